@@ -3,36 +3,55 @@
 //! Every `#[kani::proof]` in this crate is one *obligation*: it assumes the
 //! representation invariant and the precondition of one real function of
 //! `/repo`, calls that function on the real type, and asserts the
-//! postcondition stated over the abstract views of DESIGN §2.1.
+//! postcondition stated over the abstract views of DESIGN 2.1.
+//!
+//! Harness modules are gated by cargo features `m_<module>` so that a check
+//! compiles only what it runs.
 #![allow(clippy::all)]
-#![allow(unused_imports, dead_code)]
+#![allow(unused_imports, dead_code, unused_macros)]
 
 pub mod ghost;
 pub mod layout;
-pub mod vw;
-pub mod stubs;
 pub mod model;
 pub mod spec;
+pub mod stubs;
 pub mod vectors_gen;
+pub mod vw;
 #[cfg(all(test, not(kani)))]
 mod selftest;
 
-#[cfg(kani)]
+#[cfg(all(kani, feature = "m_c01"))]
 pub mod obl_c01;
-#[cfg(kani)]
+#[cfg(all(kani, any(feature = "m_reader", feature = "m_c08", feature = "m_c12", feature = "m_params")))]
 pub mod obl_reader;
-#[cfg(kani)]
+#[cfg(all(kani, any(feature = "m_bitreader", feature = "m_c12")))]
 pub mod obl_bitreader;
-#[cfg(kani)]
-pub mod obl_c13;
-#[cfg(kani)]
+#[cfg(all(kani, feature = "m_c08"))]
 pub mod obl_c08;
-#[cfg(kani)]
-pub mod obl_codes;
-#[cfg(kani)]
+#[cfg(all(kani, any(feature = "m_c10", feature = "m_c16")))]
+pub mod obl_c10;
+#[cfg(all(kani, feature = "m_c11"))]
 pub mod obl_c11;
-#[cfg(kani)]
+#[cfg(all(kani, feature = "m_c12"))]
+pub mod obl_c12;
+#[cfg(all(kani, feature = "m_c13"))]
+pub mod obl_c13;
+#[cfg(all(kani, feature = "m_c14"))]
+pub mod obl_c14;
+#[cfg(all(kani, feature = "m_c15"))]
+pub mod obl_c15;
+#[cfg(all(kani, feature = "m_c16"))]
+pub mod obl_c16;
+#[cfg(all(kani, feature = "m_c17"))]
 pub mod obl_c17;
+#[cfg(all(kani, feature = "m_c18"))]
+pub mod obl_c18;
+#[cfg(all(kani, any(feature = "m_codes", feature = "m_golomb")))]
+pub mod obl_codes;
+#[cfg(all(kani, feature = "m_params"))]
+pub mod obl_params;
+#[cfg(all(kani, feature = "m_stdspec"))]
+pub mod obl_stdspec;
 
 /// Concrete-playback tests written by /verif/bin/check when an obligation
 /// fails (empty otherwise); run natively with `cargo kani playback`.
